@@ -177,7 +177,7 @@ pub fn pair_case<const N: usize, const M: usize>(l: &Operand, r: &Operand) -> Ve
         if (a == &mut bv[..]) != want_eq {
             probs.push(format!("== &mut [U] gives {}", a == &mut bv[..]));
         }
-        array_forms!(a, bv, want_eq, probs; 0 1 2 3 4 5 6);
+        array_forms!(a, bv, want_eq, probs; 0 1 2 3 4 5 6 7);
         // total order + hash on plain bytes (alphabet without the NaN-like value)
         if l.contents.iter().all(|c| *c < 2) && r.contents.iter().all(|c| *c < 2) {
             let ua: CircularBuffer<N, u8> = build(l.rot, &l.contents, |c| c);
@@ -231,18 +231,8 @@ pub fn debug_case<const N: usize>(l: &Operand) -> Vec<String> {
     probs
 }
 
-fn alpha_for(n: usize, thorough: bool) -> u8 {
-    if thorough {
-        if n <= 4 {
-            3
-        } else {
-            2
-        }
-    } else if n <= 3 {
-        3
-    } else {
-        2
-    }
+fn alpha_for(_n: usize, _thorough: bool) -> u8 {
+    3
 }
 
 fn observed_layouts<const N: usize>(ops: &[Operand]) -> usize {
@@ -305,13 +295,14 @@ macro_rules! with_m {
             3 => run_pairs::<$n, 3>($o, $rep),
             4 => run_pairs::<$n, 4>($o, $rep),
             5 => run_pairs::<$n, 5>($o, $rep),
+            6 => run_pairs::<$n, 6>($o, $rep),
             _ => panic!("unsupported M"),
         }
     };
 }
 
 pub fn c13_check(n: usize, o: &Opts, rep: &mut Report) {
-    let max_m = if o.thorough() { 5 } else { 4 };
+    let max_m = if o.thorough() { 6 } else { 4 };
     for m in 0..=max_m {
         match n {
             0 => with_m!(m, 0, o, rep),
@@ -320,6 +311,7 @@ pub fn c13_check(n: usize, o: &Opts, rep: &mut Report) {
             3 => with_m!(m, 3, o, rep),
             4 => with_m!(m, 4, o, rep),
             5 => with_m!(m, 5, o, rep),
+            6 => with_m!(m, 6, o, rep),
             _ => panic!("unsupported N"),
         }
     }
@@ -353,6 +345,7 @@ pub fn c13_check(n: usize, o: &Opts, rep: &mut Report) {
         3 => singles!(3),
         4 => singles!(4),
         5 => singles!(5),
+        6 => singles!(6),
         _ => {}
     }
     rep.fixpoint = true;
@@ -375,6 +368,7 @@ pub fn replay_c13(c: &Case) -> Result<i32, String> {
             3 => d!(3),
             4 => d!(4),
             5 => d!(5),
+            6 => d!(6),
             _ => return Err("unsupported N".into()),
         };
         for p in &probs {
@@ -398,6 +392,7 @@ pub fn replay_c13(c: &Case) -> Result<i32, String> {
                 3 => pair_case::<$n, 3>(&l, &r),
                 4 => pair_case::<$n, 4>(&l, &r),
                 5 => pair_case::<$n, 5>(&l, &r),
+                6 => pair_case::<$n, 6>(&l, &r),
                 _ => return Err("unsupported M".into()),
             }
         };
@@ -409,6 +404,7 @@ pub fn replay_c13(c: &Case) -> Result<i32, String> {
         3 => p2!(3),
         4 => p2!(4),
         5 => p2!(5),
+        6 => p2!(6),
         _ => return Err("unsupported N".into()),
     };
     println!("N={} M={} left(rot:contents)={} right={}", n, m, l.show(), r.show());
